@@ -737,7 +737,15 @@ def r12(F, R, rid="C15-R12"):
         for x in hir_walk(b.hir["value"]):
             if x.get("k") == "Call" and isinstance(x.get("f"), dict) and str((x["f"].get("res") or {}).get("def", "")).split("::")[-1].startswith("create_arrays") \
                     and len(x.get("args") or []) >= 6:
-                grid.append((x["args"][-1], x.get("span")))
+                # the chunk-length parameter of create_arrays, by its name (a later parameter may follow it)
+                idx = -1
+                cb = F.any_body(str((x["f"].get("res") or {}).get("def", "")))
+                if cb is not None and cb.hir and cb.hir.get("params"):
+                    names = [str((q or {}).get("name") or "") for q in cb.hir["params"]]
+                    hits = [i_ for i_, nm_ in enumerate(names) if "chunk" in nm_]
+                    if len(hits) == 1 and len(names) == len(x["args"]):
+                        idx = hits[0]
+                grid.append((x["args"][idx], x.get("span")))
             if x.get("k") == "Struct" and str((x.get("res") or {}).get("def", "")).endswith("TraceStorage"):
                 for f in x.get("fields") or []:
                     if f.get("name") == "draw_chunk_size" and f.get("e") is not None:
